@@ -617,67 +617,70 @@ Definition is_loop (p : prim) : bool :=
   match p with PFor | PForSlice _ | PMapIter => true | _ => false end.
 
 (* ---------------------------------------------------------------- the evaluator *)
-Fixpoint eval (fuel : nat) (e : expr) (s : state) {struct fuel} : res :=
-  match fuel with
-  | O => RFuel
-  | S f =>
-      let apply (vf va : val) (s : state) : res :=
-        match vf with
-        | RecV fb xb body => eval f (subst' fb vf (subst' xb va body)) s
-        | PrimV p args =>
-            let args' := args ++ [va] in
-            if Nat.ltb (length args') (arity p) then RVal (PrimV p args') s
-            else if is_loop p then
-              match expand_loop p args' s with Some e' => eval f e' s | None => RStuck "loop applied to unexpected arguments" end
-            else exec_prim p args' s
-        | _ => RStuck "application of a non-function"
-        end in
-      match e with
-      | Val v => RVal v s
-      | Var x => RStuck ("unbound variable " ++ x)
-      | Rec fb xb b => RVal (RecV fb xb b) s
-      | App e1 e2 =>
-          match eval f e2 s with
-          | RVal v2 s1 =>
-              match eval f e1 s1 with
-              | RVal v1 s2 => apply v1 v2 s2
-              | r => r
-              end
+(* one unfolding of the evaluator, with the recursive calls abstracted *)
+Definition eval_step (rec : expr -> state -> res) (e : expr) (s : state) : res :=
+  let apply (vf va : val) (s : state) : res :=
+    match vf with
+    | RecV fb xb body => rec (subst' fb vf (subst' xb va body)) s
+    | PrimV p args =>
+        let args' := args ++ [va] in
+        if Nat.ltb (length args') (arity p) then RVal (PrimV p args') s
+        else if is_loop p then
+          match expand_loop p args' s with Some e' => rec e' s | None => RStuck "loop applied to unexpected arguments" end
+        else exec_prim p args' s
+    | _ => RStuck "application of a non-function"
+    end in
+  match e with
+  | Val v => RVal v s
+  | Var x => RStuck ("unbound variable " ++ x)
+  | Rec fb xb b => RVal (RecV fb xb b) s
+  | App e1 e2 =>
+      match rec e2 s with
+      | RVal v2 s1 =>
+          match rec e1 s1 with
+          | RVal v1 s2 => apply v1 v2 s2
           | r => r
           end
-      | UnOp op e1 =>
-          match eval f e1 s with
-          | RVal v s1 => match un_op_eval op v with Some r => RVal r s1 | None => RStuck "unary operator" end
-          | r => r
-          end
-      | BinOp op e1 e2 =>
-          match eval f e2 s with
-          | RVal v2 s1 =>
-              match eval f e1 s1 with
-              | RVal v1 s2 => match bin_op_eval op v1 v2 with Some r => RVal r s2 | None => RStuck "binary operator" end
-              | r => r
-              end
-          | r => r
-          end
-      | If e0 e1 e2 =>
-          match eval f e0 s with
-          | RVal (LitV (LitBool true)) s1 => eval f e1 s1
-          | RVal (LitV (LitBool false)) s1 => eval f e2 s1
-          | RVal _ _ => RStuck "if: condition is not a boolean"
-          | r => r
-          end
-      | Pair e1 e2 =>
-          match eval f e2 s with
-          | RVal v2 s1 => match eval f e1 s1 with RVal v1 s2 => RVal (PairV v1 v2) s2 | r => r end
-          | r => r
-          end
-      | Fst e1 => match eval f e1 s with RVal (PairV a _) s1 => RVal a s1 | RVal _ _ => RStuck "Fst" | r => r end
-      | Snd e1 => match eval f e1 s with RVal (PairV _ b) s1 => RVal b s1 | RVal _ _ => RStuck "Snd" | r => r end
-      | Fork e1 =>
-          (* sequential reference run: the child runs to completion at the fork
-             point (one admissible schedule; Conc/ explores the others) *)
-          match eval f e1 s with RVal _ s1 => RVal vunit s1 | RStuck w => RStuck w | RFuel => RFuel end
+      | r => r
       end
+  | UnOp op e1 =>
+      match rec e1 s with
+      | RVal v s1 => match un_op_eval op v with Some r => RVal r s1 | None => RStuck "unary operator" end
+      | r => r
+      end
+  | BinOp op e1 e2 =>
+      match rec e2 s with
+      | RVal v2 s1 =>
+          match rec e1 s1 with
+          | RVal v1 s2 => match bin_op_eval op v1 v2 with Some r => RVal r s2 | None => RStuck "binary operator" end
+          | r => r
+          end
+      | r => r
+      end
+  | If e0 e1 e2 =>
+      match rec e0 s with
+      | RVal (LitV (LitBool true)) s1 => rec e1 s1
+      | RVal (LitV (LitBool false)) s1 => rec e2 s1
+      | RVal _ _ => RStuck "if: condition is not a boolean"
+      | r => r
+      end
+  | Pair e1 e2 =>
+      match rec e2 s with
+      | RVal v2 s1 => match rec e1 s1 with RVal v1 s2 => RVal (PairV v1 v2) s2 | r => r end
+      | r => r
+      end
+  | Fst e1 => match rec e1 s with RVal (PairV a _) s1 => RVal a s1 | RVal _ _ => RStuck "Fst" | r => r end
+  | Snd e1 => match rec e1 s with RVal (PairV _ b) s1 => RVal b s1 | RVal _ _ => RStuck "Snd" | r => r end
+  | Fork e1 =>
+      (* sequential reference run: the child runs to completion at the fork
+         point (one admissible schedule; the machine in GlConc.v explores the others) *)
+      match rec e1 s with RVal _ s1 => RVal vunit s1 | r => r end
+  end.
+
+Fixpoint eval (fuel : nat) : expr -> state -> res :=
+  match fuel with
+  | O => fun _ _ => RFuel
+  | S f => eval_step (eval f)
   end.
 
 Definition run (fuel : nat) (e : expr) : res := eval fuel e state0.
